@@ -47,6 +47,15 @@ class Fault(Exception):
     pass
 
 
+class RunawayPrompt(BaseException):
+    """The prompt loop called input() again and again at the same question
+    although input had ended / the user had interrupted: a logical bound, not a
+    wall-clock one."""
+
+
+MAX_CALLS_PER_QUESTION = 60
+
+
 def session(year, forms, path, answer_fn, fault=None, extra_args=(), on_prompt=None):
     """Run one interactive CLI session.  fault = (kind, k).  Returns
     (cli result, [(name, text) answers given in order])."""
@@ -55,8 +64,13 @@ def session(year, forms, path, answer_fn, fault=None, extra_args=(), on_prompt=N
     state = {'n': 0, 'cur': None, 'pending_invalid': False}
 
     def inp(prompt):
+        state['calls'] = state.get('calls', 0) + 1
         if on_prompt is not None:
             on_prompt(prompt)
+        if BANNER.search(prompt):
+            state['calls'] = 1
+        elif state['calls'] > MAX_CALLS_PER_QUESTION:
+            raise RunawayPrompt(f'input() was called {state["calls"]} times for {state["cur"]} without the session ending')
         m = BANNER.search(prompt)
         if m:
             state['cur'] = m.group(1)
@@ -248,6 +262,9 @@ def one_fault(res, spec, year, forms, tmp, initial, full_answers, lookup, fault,
     res.count('faults_' + kind)
     rp = {'engine': 'cli-fault', 'shard': spec, 'fault': list(fault), 'forms': forms, 'initial': initial, 'answers_before_fault': given[-5:]}
     tag = f'C20|{kind}'
+    if isinstance(r.exc, RunawayPrompt):
+        res.violation(f'{tag}|prompt-loop-does-not-end', f'{fault}: {r.exc}', rp)
+        return
     if kind in ('eof', 'line-raises', 'unsupported-form') and r.exc is None and kind != 'line-raises':
         res.count('fault_not_reached')
     if kind == 'line-raises' and not isinstance(r.exc, Fault):
